@@ -74,6 +74,8 @@ def make_bo(sc, m, names, client_events=None):
     import elfi
     from elfi.methods.bo.acquisition import LCBSC, UniformAcquisition  # noqa: F401
     bounds = {n: tuple(sc["bounds"][k]) for k, n in enumerate(names)}
+    if sc.get("rev_bounds"):          # the user's dict lists the parameters in another order than the model's
+        bounds = dict(reversed(list(bounds.items())))
     ie = sc["init"]
     if isinstance(ie, dict):
         rs = np.random.RandomState(sc["seed"] + 1)
@@ -290,6 +292,11 @@ def scenarios(ctx):
                     upd=rnd.choice([1, 2, 10]), noise=noise, seed=rnd.randint(0, 10 ** 6), acq=rnd.choice(["lcbsc", "lcbsc", "uniform"]))
         if i % 5 == 1:
             base["seed"] = 0                   # the valid seed 0
+        if dim == 2 and i % 2 == 0:
+            base["rev_bounds"] = True
+            if base["bounds"][0] == base["bounds"][1]:
+                base["bounds"] = [[-3.0, 3.0], [0.0, 1.0]]
+                base["prior"] = [[b[0] - 1.0, b[1] + 1.0] if wide else [b[0] + 0.25, b[1] - 0.25] for b in base["bounds"]]
         for mp in ([1, 3] if ctx.quick else [1, 2, 3]):
             out.append(dict(base, maxpar=mp, sched_seed=rnd.randint(0, 10 ** 6), p_ready=rnd.choice([0.0, 0.5, 1.0]), p_run=rnd.choice([0.0, 0.5, 1.0])))
     # precomputed initial evidence + parallel, unready schedules: the acquisition gate must count only SUBMITTED initial evidence
